@@ -606,6 +606,9 @@ func runC20GcsCase(c *fw.Ctx, cs *c20GcsCase) (string, string) {
 	if probe != "" {
 		return "after", probe
 	}
+	if cs.Batch != nil && resp.Status != 200 && len(cs.Batch) <= 100 {
+		return "batch", fmt.Sprintf("a well-formed batch of %d requests is answered %d %.120q as a whole instead of one sub-response per part", len(cs.Batch), resp.Status, resp.Body)
+	}
 	if cs.Batch != nil && resp.Status == 200 {
 		parts, bad := parseBatchResponse(resp)
 		if bad != "" {
@@ -771,11 +774,17 @@ func c20GcsCatalogue() []c20GcsCase {
 			c20GcsCase{Batch: []gcs.HTTPReq{big, menu[0]}, Label: fmt.Sprintf("batch:big%d,0", n)},
 			c20GcsCase{Batch: []gcs.HTTPReq{big, big}, Label: fmt.Sprintf("batch:big%d,big%d", n, n)})
 	}
-	var many []gcs.HTTPReq
-	for i := 0; i < 60; i++ {
-		many = append(many, menu[0], gcs.ReqPatch("b", "x", []byte(fmt.Sprintf(`{"metadata":{"n":"%d"}}`, i)), nil))
+	// batches around the documented maximum of 100 calls (a larger one may be refused as a whole)
+	for _, n := range []int{99, 100, 101, 120} {
+		var many []gcs.HTTPReq
+		for i := 0; len(many) < n; i++ {
+			many = append(many, menu[0])
+			if len(many) < n {
+				many = append(many, gcs.ReqPatch("b", "x", []byte(fmt.Sprintf(`{"metadata":{"n":"%d"}}`, i)), nil))
+			}
+		}
+		out = append(out, c20GcsCase{Batch: many, Label: fmt.Sprintf("batch:%d-parts", n)})
 	}
-	out = append(out, c20GcsCase{Batch: many, Label: "batch:120-parts"})
 	full := c20Batch([]gcs.HTTPReq{menu[0], menu[3]})
 	for k := 0; k < len(full.Body); k += 1 {
 		r := full
